@@ -54,6 +54,8 @@ def check_case(ctx, spec, root, tag, model_out):
     ctx.case(case, nontrivial=spec.get('malformed') or ('ok' in impl and len(impl['ok']) >= 2))
     ctx.count('built' if 'ok' in impl else f"error:{impl['error']}")
     ctx.count('malformed' if spec.get('malformed') else 'wellformed')
+    if spec.get('family'):
+        ctx.count('family:' + spec['family'])
     # ---- correspondence
     if ('ok' in impl) != ('ok' in model_out):
         ctx.diverge('builder:error-vs-chain', full_case, impl.get('error', 'chain'), model_out.get('error', 'chain'))
@@ -132,6 +134,8 @@ def run(ctx):
         specs.append(builder.gen_case(ctx.rng('mal', i), malformed=True))
     for i in range(ctx.n(25, 300)):
         specs.append(builder.gen_case(ctx.rng('conflict', i), conflict=True))
+    for i in range(ctx.n(40, 400)):
+        specs.append(builder.gen_pattern_case(ctx.rng('pattern-up', i)))
     reqs = []
     for i, spec in enumerate(specs):
         b = pl.Built(root / f'c{i}', spec['module'], spec)
